@@ -34,7 +34,8 @@ class Probe:
             # "a conversion failure" is any exception of the converter, whatever its type
             if s not in ("alpha é", "b & c"):
                 raise Probe.ProbeError()           # ... also one that carries no message at all (str(e) == "")
-            raise {"alpha é": ValueError, "b & c": KeyError}[s]("probe: cannot convert " + s)
+            # (messages with braces, percent signs and format fields: an error text is data, not a template)
+            raise {"alpha é": ValueError, "b & c": KeyError}[s]("probe: cannot convert {" + s + "} {0} %s {x!r} }{")
         return "<" + s + ">"
     unicode_to_latex = _f
     latex_to_text = _f
@@ -223,6 +224,11 @@ def roundtrip(bib, text, eo, history=False):
     M = bib.model
     lib = bib.Library([M.Entry("article", "k", [M.Field("title", text)]), M.String("s", text)])
     if history:
+        # (the blocks come from a parse in which both values were bare numbers - the default stack has left its records on
+        # them - and were given their text later)
+        lib = bib.parse_string("@article{k, title = 2020}\n@string{s = 2021}\n")
+        if [type(b).__name__ for b in lib.blocks] != ["Entry", "String"]:
+            raise core.MachineryError("C18 history prelude: unexpected parse")
         # the blocks have been decoded and encoded before (they carry whatever those runs left on them) and were
         # edited since: the round trip law is about the text they hold now
         lib.blocks[0].fields[0].value = lib.blocks[1].value = "caf\\'e \\& co"
@@ -373,6 +379,11 @@ def run(chk: core.Check):
             continue
         nrt += 1
         check_rt(chk, bib, text, eo)
+    # texts that begin or end with blanks or line breaks (a multi-line abstract, a padded value)
+    for text in (" padded ", "\n  a multi-line\n  abstract\n", "trailing blank ", "\tx", "a\n", "  ", " é & b "):
+        for eo in ({}, {"keep_math": False, "enclose_urls": False}):
+            nrt += 1
+            check_rt(chk, bib, text, eo)
     # every accented Latin letter (Latin-1 Supplement, Extended-A, Extended-B, Extended Additional), one at a time
     import unicodedata
     for cp in list(range(0xC0, 0x250)) + list(range(0x1E00, 0x1F00)):
